@@ -63,6 +63,16 @@ def runs(default):
     return int(v) if v else default
 
 
+def only(ctx):
+    """VERIF_FUZZ_ONLY=1 (development aid, thorough tier only): skip the generated-input search and run just the fuzz
+    layer, e.g. to try a mutant of the layer without waiting for the 20-30 minute Hypothesis part.  The evidence of such
+    a run is incomplete by design (write it to a scratch VERIF_EVIDENCE_DIR)."""
+    if ctx.quick or os.environ.get("VERIF_FUZZ_ONLY", "") not in ("1", "yes", "true"):
+        return False
+    ctx.stats.notes.append("VERIF_FUZZ_ONLY: generated-input search skipped, fuzz layer only")
+    return True
+
+
 def ppci_frame(e):
     """innermost ppci frame of an exception: 'irutils/reader.py:parse_type' ('?' if none)"""
     where = "?"
@@ -193,7 +203,7 @@ def _parse_log(path):
     return res
 
 
-def _one_campaign(target_name, mode, seeds, nruns, seed, root, dictionary, budget_s, unit_timeout_s, out):
+def _one_campaign(target_name, mode, seeds, nruns, seed, root, dictionary, budget_s, unit_timeout_s, out, extra_args=()):
     """Runs in a thread; only waits for child processes.  Fills out[mode]."""
     d = os.path.join(root, mode)
     corpus, art, warm = os.path.join(d, "corpus"), os.path.join(d, "art"), os.path.join(d, "warm")
@@ -206,6 +216,11 @@ def _one_campaign(target_name, mode, seeds, nruns, seed, root, dictionary, budge
            "libfuzzer_artifacts": [], "notes": []}  # fmt: skip
     args_common = ["-seed=%d" % (seed & 0x7FFFFFFF or 1), "-max_len=%d" % MAX_LEN, "-artifact_prefix=%s/" % art, "-print_final_stats=1",
                    "-timeout=%d" % unit_timeout_s, "-rss_limit_mb=4096", "-verbosity=1"]  # fmt: skip
+    args_common += list(extra_args)
+    if not seeds:
+        # from an empty corpus libFuzzer otherwise raises the length limit very slowly (4, 8, ... bytes):
+        # dictionary productions of 30-60 bytes could not even be inserted during a short campaign
+        args_common.append("-len_control=0")
     if dictionary:
         dpath = os.path.join(d, "dict.txt")
         with open(dpath, "w") as f:
@@ -264,7 +279,8 @@ def _one_campaign(target_name, mode, seeds, nruns, seed, root, dictionary, budge
     out[mode] = res
 
 
-def campaign(target_name, one_input, seeds, runs, seed, workdir, dictionary=None, info=None, budget_s=None, unit_timeout_s=120, min_evals=400):
+def campaign(target_name, one_input, seeds, runs, seed, workdir, dictionary=None, info=None, budget_s=None, unit_timeout_s=120, min_evals=400,
+             libfuzzer_args=()):
     """See the module docstring.  Returns [(input bytes, message)], one per confirmed root cause."""
     if target_name not in TARGETS:
         raise core.HarnessError("unknown fuzz target %r" % (target_name,))
@@ -283,7 +299,7 @@ def campaign(target_name, one_input, seeds, runs, seed, workdir, dictionary=None
         for i, s in enumerate(seeds[:3]):
             with open(os.path.join(wd, "w%d" % i), "wb") as f:
                 f.write(s)
-        t = threading.Thread(target=_one_campaign, args=(target_name, mode, ss, runs, sd, root, dictionary, budget_s, unit_timeout_s, out))
+        t = threading.Thread(target=_one_campaign, args=(target_name, mode, ss, runs, sd, root, dictionary, budget_s, unit_timeout_s, out, tuple(libfuzzer_args)))
         t.start()
         threads.append(t)
     for t in threads:
